@@ -22,6 +22,7 @@ import (
 	"math/rand"
 	"sort"
 	"strings"
+	"sync"
 	"time"
 
 	"github.com/caddyserver/certmagic"
@@ -62,6 +63,7 @@ type c12Step struct {
 type ariIssuer struct {
 	key string
 	ctr *int
+	mu  *sync.Mutex
 }
 
 func (i ariIssuer) IssuerKey() string { return i.key }
@@ -69,6 +71,8 @@ func (i ariIssuer) Issue(ctx context.Context, csr *x509.CertificateRequest) (*ce
 	return nil, fmt.Errorf("ariIssuer does not issue")
 }
 func (i ariIssuer) GetRenewalInfo(ctx context.Context, cert certmagic.Certificate) (acme.RenewalInfo, error) {
+	i.mu.Lock()
+	defer i.mu.Unlock()
 	*i.ctr++
 	return acme.RenewalInfo{ExplanationURL: fmt.Sprintf("i%d", *i.ctr)}, nil
 }
@@ -80,6 +84,7 @@ type c12Env struct {
 	getter     certmagic.ConfigGetter
 	cap        int
 	ariCounter *int
+	mu         sync.Mutex
 	panics     []string // implementation panics seen (the environment is rebuilt after each)
 	chains     map[string]tls.Certificate // pool hash -> real chain (Leaf set)
 	pems       map[string][]byte
@@ -119,7 +124,7 @@ func newC12Env() (*c12Env, error) {
 	ca := doubles.NewCA("c12 CA")
 	st := env.backend.Handle("c12")
 	cfg, cache := doubles.NewConfig(st, certmagic.Config{DisableARI: false}, certmagic.CacheOptions{},
-		ariIssuer{"i1", env.ariCounter}, ariIssuer{"i2", env.ariCounter})
+		ariIssuer{"i1", env.ariCounter, &env.mu}, ariIssuer{"i2", env.ariCounter, &env.mu})
 	env.cfg, env.cache = cfg, cache
 	env.getter = func(certmagic.Certificate) (*certmagic.Config, error) { return cfg, nil }
 	env.hello, env.closeHello = doubles.Hello("a.x")
@@ -479,13 +484,75 @@ func (env *c12Env) rebuild(msg string) error {
 		return err
 	}
 	n.panics = append(env.panics, msg)
-	*env = *n
+	// (field-wise: the struct holds a mutex)
+	env.backend, env.cfg, env.cache, env.getter = n.backend, n.cfg, n.cache, n.getter
+	env.ariCounter, env.chains, env.pems = n.ariCounter, n.chains, n.pems
+	env.hello, env.closeHello, env.panics = n.hello, n.closeHello, n.panics
 	return nil
 }
 
 type c12Hist struct {
 	Cap int     `json:"cap"`
 	Ops []c12Op `json:"ops"`
+	// Concurrent, if set, is a stress case: phases of operation lists run by free goroutines
+	// (Concurrent[phase][goroutine] = ops); Ops then run sequentially afterwards.
+	Concurrent [][][]c12Op `json:"concurrent,omitempty"`
+}
+
+// execRaw runs an operation on the implementation without any bookkeeping (stress runs).
+func (env *c12Env) execRaw(op *c12Op) {
+	switch op.Kind {
+	case "add":
+		env.cache.VerifCacheCertificate(env.mk(*op.Cert))
+	case "rmcert":
+		env.cache.VerifRemoveCertificate(env.mk(*op.Cert))
+	case "replace":
+		env.cache.VerifReplaceCertificate(env.mk(*op.Cert), env.mk(*op.New))
+	case "remove":
+		env.cache.Remove(op.Hashes)
+	case "rmmanaged":
+		var sj []certmagic.SubjectIssuer
+		for _, s := range op.Subjects {
+			sj = append(sj, certmagic.SubjectIssuer{Subject: s[0], IssuerKey: s[1]})
+		}
+		env.cache.RemoveManaged(sj)
+	case "hsmaint":
+		c := *op.Cert
+		if c.OCSPSerial == 0 {
+			c.OCSPSerial = 1
+		}
+		env.cfg.VerifHandshakeMaintenance(context.Background(), env.hello, env.mk(c))
+	case "ari":
+		env.cfg.VerifUpdateARI(context.Background(), env.mk(*op.Cert))
+	case "ocspmaint":
+		env.cache.VerifUpdateOCSPStaples(context.Background())
+	case "lookup":
+		for _, c := range env.cache.AllMatchingCertificates(op.Hashes[0]) {
+			_ = c.Hash()
+		}
+	}
+}
+
+// runPhase runs the goroutines of one concurrent phase to completion.
+func (env *c12Env) runPhase(lists [][]c12Op) {
+	var wg sync.WaitGroup
+	for g := range lists {
+		wg.Add(1)
+		go func(ops []c12Op) {
+			defer wg.Done()
+			defer func() {
+				if r := recover(); r != nil {
+					env.mu.Lock()
+					env.panics = append(env.panics, fmt.Sprintf("concurrent phase: %v", r))
+					env.mu.Unlock()
+				}
+			}()
+			for i := range ops {
+				env.execRaw(&ops[i])
+			}
+		}(lists[g])
+	}
+	wg.Wait()
 }
 
 // runHist executes a history from the empty cache and emits it as one case.
@@ -493,6 +560,14 @@ func (env *c12Env) runHist(w *emit.Writer, h c12Hist, class string) error {
 	env.reset(h.Cap)
 	var steps []c12Step
 	panicked := false
+	for _, phase := range h.Concurrent {
+		env.runPhase(phase)
+		steps = append(steps, c12Step{Abs: fmt.Sprintf("concurrent phase (%d goroutines)", len(phase)), wire: (&emit.Enc{}).Int(8), Snap: env.snap()})
+		env.feat["concurrent_phase"]++
+		for _, l := range phase {
+			env.feat["concurrent_ops"] += len(l)
+		}
+	}
 	for i := range h.Ops {
 		st, err := env.exec(&h.Ops[i])
 		steps = append(steps, st...)
@@ -544,7 +619,7 @@ func (env *c12Env) runHist(w *emit.Writer, h c12Hist, class string) error {
 		}
 	}
 	nt := env.feat["evict"]+env.feat["remove_hit"]+env.feat["tagmerge"]+env.feat["writeback_applied"]+
-		env.feat["writeback_refused_stale"]+env.feat["replace_stale_old"] > 0
+		env.feat["writeback_refused_stale"]+env.feat["replace_stale_old"]+env.feat["concurrent_phase"] > 0
 	desc := map[string]any{"class": class, "cap": h.Cap, "len": len(steps)}
 	for _, k := range []string{"evict", "tagmerge", "writeback_refused_stale", "interleaved"} {
 		if env.feat[k] > 0 {
@@ -696,6 +771,54 @@ func c12RandHist(r *rand.Rand, env *c12Env) c12Hist {
 	return h
 }
 
+// c12StressHist: phases of random operations run by free goroutines, then Remove of every pool
+// hash (which must leave both maps empty).
+func c12StressHist(r *rand.Rand) c12Hist {
+	h := c12Hist{Cap: []int{0, 2, 3, 5}[r.Intn(4)]}
+	tagsets := [][]string{nil, {"t1"}, {"t2", "t3"}}
+	pc := func() *c12Info {
+		p := c12PoolDef[r.Intn(len(c12PoolDef))]
+		p.Tags = tagsets[r.Intn(len(tagsets))]
+		return &p
+	}
+	for ph := 0; ph < 3; ph++ {
+		var phase [][]c12Op
+		for g := 0; g < 6; g++ {
+			var ops []c12Op
+			for i := 0; i < 40; i++ {
+				switch x := r.Intn(100); {
+				case x < 35:
+					ops = append(ops, c12Op{Kind: "add", Cert: pc()})
+				case x < 45:
+					ops = append(ops, c12Op{Kind: "rmcert", Cert: pc()})
+				case x < 58:
+					ops = append(ops, c12Op{Kind: "replace", Cert: pc(), New: pc()})
+				case x < 68:
+					ops = append(ops, c12Op{Kind: "remove", Hashes: []string{c12PoolDef[r.Intn(len(c12PoolDef))].Hash, "zz"}})
+				case x < 74:
+					ops = append(ops, c12Op{Kind: "rmmanaged", Subjects: [][2]string{{[]string{"a.x", "b.x", "*.x"}[r.Intn(3)], ""}}})
+				case x < 82:
+					ops = append(ops, c12Op{Kind: "hsmaint", Cert: pc()})
+				case x < 88:
+					ops = append(ops, c12Op{Kind: "ari", Cert: pc()})
+				case x < 92:
+					ops = append(ops, c12Op{Kind: "ocspmaint"})
+				default:
+					ops = append(ops, c12Op{Kind: "lookup", Hashes: []string{c12Queries[r.Intn(len(c12Queries))]}})
+				}
+			}
+			phase = append(phase, ops)
+		}
+		h.Concurrent = append(h.Concurrent, phase)
+	}
+	var all []string
+	for _, p := range c12PoolDef {
+		all = append(all, p.Hash)
+	}
+	h.Ops = []c12Op{{Kind: "add", Cert: c12P("h1", "t7")}, {Kind: "remove", Hashes: all}}
+	return h
+}
+
 func runC12(tier string, seed int64, outdir string, replay string) error {
 	w := emit.NewWriter(outdir, "C12", tier, seed)
 	w.Meta.Oracles = []emit.OracleCheck{}
@@ -789,6 +912,16 @@ func runC12(tier string, seed int64, outdir string, replay string) error {
 	for i := 0; i < nRand; i++ {
 		h := c12RandHist(r, env)
 		if err := env.runHist(w, h, "random"); err != nil {
+			return err
+		}
+	}
+	// ---- free-running goroutines (supporting: the lock discipline assumed by the model) ----
+	nStress := 40
+	if tier == "thorough" {
+		nStress = 400
+	}
+	for i := 0; i < nStress; i++ {
+		if err := env.runHist(w, c12StressHist(r), "concurrent"); err != nil {
 			return err
 		}
 	}
